@@ -191,7 +191,12 @@ def main():
         tv = res.get("tv", {})
         agg["tv_runs"] += tv.get("runs", 0)
         for m in tv.get("mismatches", []):
-            harness_errors.append((cid, m["label"], f"translator validation: symbolic {m['sym']} but real float run: {m['conc']}"))
+            # the real float code violates an obligation at a path seed although the exact-arithmetic run proves it: either an
+            # encoding error or a rounding-level defect of the real code; it is replayed like a solver counterexample and
+            # reported as a violation only if it reproduces in a fresh interpreter
+            violations.append((cid, m["label"], dict(values=m["values"], sig=[], obligations=[]),
+                               dict(label=m["label"], status="violated", model=m["values"],
+                                    detail=f"float run at a path seed: {m['conc']} (exact-arithmetic run: {m['sym']})")))
         for pi, p in enumerate(res.get("paths", [])):
             if p["status"] == "inconclusive":
                 inconclusive.append((cid, "path", p["detail"]))
